@@ -63,7 +63,7 @@ func cases() []tcase {
 			entitled := map[string]string{"accept": "B", "reject": "B", "execute": "L", "abort": "L"}[kind]
 			for _, claimed := range []string{"L", "B", "X"} {
 				for _, signer := range []string{"L", "B", "X"} {
-					for _, m := range []string{"none", "metadata-address", "metadata-beacon-id", "signature-bitflip"} {
+					for _, m := range []string{"none", "metadata-address", "metadata-beacon-id", "signature-bitflip", "sig-of-other-vote"} {
 						if m != "none" && !(claimed == entitled && signer == entitled) {
 							continue
 						}
